@@ -464,6 +464,11 @@ Inductive c19case :=
    unknown length, a Content-Length that is larger / smaller than what is sent), the status it
    answered, what the reader obtained. The rig's SourceToAddress maps every non-empty source. *)
 | CHttpRaw (b : hbody bytes) (status : Z) (delivered : option rpc)
+(* end to end with a FAULT between the delivery and its answer: the far end hands the envelope to its reader and the
+   TCP connection then drops before the 200 gets back, so the sender's Write fails (or, if it repeats the POST, is told
+   200 for the second one). Whatever Write returned: the receiver reads every envelope AT MOST once, in write order,
+   and at least the ones whose Write returned nil. [written] in write order, [read] what arrived before the marker. *)
+| CHttpE2EFault (written : list rpc) (write_ok : list bool) (read : list rpc)
 (* a direct observation that the property requires to hold (code: see lib/props/C19.py).
    Code 3 is the sender's half of "written without error => read": the model of one GoatOverHttp has the far end
    as the environment of a Write ([HPostResult w ok]); since /repo 2aacfa6 [ok] reads "the POST was answered 200"
@@ -509,6 +514,21 @@ Definition check (c : c19case) : list nat :=
                 | VDeliver _ e => (status =? 200) && opt_eqb rpc_eqb delivered (Some e)
                 end in
       if ok then [] else [1%nat; 2%nat]
+  | CHttpE2EFault written oks read =>
+      let nodup := Nat.eqb (length (dedup rpc_eqb read)) (length read) in
+      let inorder := (fix sub (r w : list rpc) : bool :=
+                        match r with
+                        | [] => true
+                        | x :: r' => (fix skip (w : list rpc) : bool :=
+                                        match w with
+                                        | [] => false
+                                        | y :: w' => if rpc_eqb x y then sub r' w' else skip w'
+                                        end) w
+                        end) read written in
+      let acked := forallb (fun p => negb (snd p) || existsb (rpc_eqb (fst p)) read) (combine written oks) in
+      (* the model delivers a request at most once (C19_http_at_most_once) as the decoded envelope: a duplicate or a
+         foreign envelope is a disagreement as well as a failing input *)
+      (if nodup && inorder then [] else [1%nat]) ++ (if nodup && inorder && acked then [] else [2%nat])
   | CHttpE2E written oks read =>
       (if list_eqb (opt_eqb rpc_eqb) (map (fun e => decode (encode e)) written) read then [] else [1%nat]) ++
       (if forallb (fun b => b) oks && list_eqb (opt_eqb rpc_eqb) read (map Some written) then [] else [2%nat])
